@@ -41,6 +41,7 @@ inline std::string gen_name(Tape& t)
     default:
     {
         std::uint64_t const k = t.range(0, 9);
+        if (k == 5) { return "$m_T(\\mu\\nu_\\mu)$ with backslash-n inside"; }
         if (k == 6) { return "#jets (a name that starts like a comment line)"; }
         if (k == 7) { return "tab\tinside"; }
         if (k == 8) { return "ends with a carriage return\r"; }
@@ -136,10 +137,12 @@ struct TestFn
     {
         std::vector<T> const& x = coords(p);
         T const v = value(x);
+        // family 12: the integrand vanishes, its distributions are filled nevertheless (the projector does not depend on the return value)
+        T const d = family == 12 ? T(1) + x[0] : v;
         for (std::size_t i = 0; i != dists.size(); ++i)
         {
-            if (dists[i].two_d) { proj.add(i, x[0], x[dims - 1] - T(0.25), v); }
-            else { proj.add(i, x[i % dims], v); }
+            if (dists[i].two_d) { proj.add(i, x[0], x[dims - 1] - T(0.25), d); }
+            else { proj.add(i, x[i % dims], d); }
         }
         return v;
     }
